@@ -607,7 +607,7 @@ impl Check for C03 {
     }
     fn budget(&self, tier: Tier) -> (u64, Duration) {
         match tier {
-            Tier::Quick => (6_000, Duration::from_secs(60)),
+            Tier::Quick => (12_000, Duration::from_secs(120)),
             Tier::Thorough => (u64::MAX, Duration::from_secs(600)),
         }
     }
@@ -864,7 +864,7 @@ impl Check for C10 {
     }
     fn budget(&self, tier: Tier) -> (u64, Duration) {
         match tier {
-            Tier::Quick => (300, Duration::from_secs(60)),
+            Tier::Quick => (400, Duration::from_secs(120)),
             Tier::Thorough => (u64::MAX, Duration::from_secs(600)),
         }
     }
@@ -1118,7 +1118,7 @@ impl Check for C02 {
     }
     fn budget(&self, tier: Tier) -> (u64, Duration) {
         match tier {
-            Tier::Quick => (4_000, Duration::from_secs(60)),
+            Tier::Quick => (8_000, Duration::from_secs(120)),
             Tier::Thorough => (u64::MAX, Duration::from_secs(600)),
         }
     }
@@ -1425,7 +1425,7 @@ impl Check for C09 {
     }
     fn budget(&self, tier: Tier) -> (u64, Duration) {
         match tier {
-            Tier::Quick => (12_000, Duration::from_secs(60)),
+            Tier::Quick => (20_000, Duration::from_secs(120)),
             Tier::Thorough => (u64::MAX, Duration::from_secs(600)),
         }
     }
